@@ -8,7 +8,7 @@
               number of taps of output k that read x[p]   (n_out x n)
    7 rolling  [7; n; w] -> 0 | 1 :: n_out :: ordered taps of every output (n_out x w)
    4 lp       [4; m; e; x..] (pad = m * 2^-e) -> lpad :: enc_zlist (padded) ++ enc_zlist (cropped)
-   5 savgol   [5; window; polynom; n; x..; y..] over Q -> 0 :: code | 1 :: n :: (num; den) x n
+   5 savgol   [5; window; polynom; n; x..; y..] over Q -> 0 :: code | 1 :: n :: (floor v; floor (frac v * 2^40)) x n
    6 traj     [6; nc; x..; y..] -> nrows :: ncols :: enc_zlist entries ++ enc_zlist trcount *)
 From Coq Require Import ZArith List Bool QArith Qreduction.
 From IBL.lib Require Import PyInt RunLib.
@@ -118,7 +118,11 @@ Definition q_inv (M : list (list Q)) : list (list Q) :=
   end.
 
 Definition q_savgol := savgol Q 0%Q 1%Q qadd qmul qsub q_inv.
-Definition enc_q (a : Q) : list Z := [Qnum a; Z.pos (Qden a)].
+(* a rational as [floor a; floor (frac a * 2^40)] — numerators/denominators themselves can exceed
+   the 62-bit range of the driver's I/O *)
+Definition enc_q (a : Q) : list Z :=
+  let n := Qnum a in let d := Z.pos (Qden a) in
+  [n / d; ((n mod d) * 2 ^ 40) / d].
 Definition run_savgol (l : list Z) : list Z :=
   match l with
   | window :: polynom :: n :: r =>
